@@ -333,6 +333,20 @@ pub fn c06_special(rep: &mut Rep) {
     }
 }
 
+/// inputs that the parser may refuse (a multi-service system with auxiliaries and no output lines): refused, or every declared kWh is EPB electricity use
+pub fn c06_refused_or_counted(rep: &mut Rep) {
+    for (text, aux_total) in [("1,CONSUMO,CAL,ELECTRICIDAD,10,10\n1,CONSUMO,ACS,ELECTRICIDAD,5,5\n1,AUX,2,2\n2,PRODUCCION,EL_INSITU,16,16", 4.0f32),
+                              ("1,CONSUMO,CAL,GASNATURAL,10,10\n1,CONSUMO,REF,ELECTRICIDAD,5,5\n1,AUX,1,3\n3,CONSUMO,NEPB,ELECTRICIDAD,1,1", 4.0)] {
+        rep.evals += 1;
+        let comps: Components = match text.parse() { Ok(c) => c, Err(_) => continue };
+        let w = crate::factors("PENINSULA");
+        if let Ok(ep) = energy_performance(&comps, &w, 0.0, 1.0, false) {
+            let declared_el: f32 = text.lines().filter_map(|l| { let f: Vec<&str> = l.split(',').collect(); if f[1] == "CONSUMO" && f[3] == "ELECTRICIDAD" && f[2] != "NEPB" && f[2] != "COGEN" { Some(f[4..].iter().filter_map(|x| x.trim().parse::<f32>().ok()).sum::<f32>()) } else { None } }).sum();
+            let got = ep.balance_cr.get(&Carrier::ELECTRICIDAD).map(|b| b.used.epus_an).unwrap_or(0.0);
+            if !eq(got, declared_el + aux_total) { rep.fail("C06.counted_in_balance", text, format!("the file is accepted and the EPB electricity use in the balance is {}, declared {} + auxiliaries {}", got, declared_el, aux_total)); }
+        }
+    }
+}
 // ------------------------------------------------------------------------------------------------ C05
 pub fn c05(rep: &mut Rep) {
     let ids = [-1, 0, 1];
